@@ -46,6 +46,15 @@ def handle (toks : List String) : Option String :=
       let verdicts := (List.range n).map fun d => detect n (fun s => ls.getD s []) d
       -- NOTE: the model routes by `index mod n`; the real tags are random, so only the verdict is compared
       pure (if verdicts.any Option.isSome then "rejected:on-picker-shard" else "accepted")).getD "bad-request"
+  -- `c11.big <count> <i> <j>`: ONE shard receives `count` encrypted reports, pairwise distinct except
+  -- that the report at position `j` is a byte-identical copy of the one at position `i`
+  | ["c11.big", count, i, j] => some <| (do
+      let count ← count.toNat?
+      let i ← i.toNat?
+      let j ← j.toNat?
+      if !(i < j && j < count) then none else
+      let tags := (List.range count).map fun k => if k == j then i else k
+      pure (if (detect 1 (fun _ => tags) 0).isSome then "rejected:on-picker-shard" else "accepted")).getD "bad-request"
   | _ => none
 
 /-! Spec-side oracle (independent of the model): a shard must report a duplicate iff two of the
@@ -97,6 +106,9 @@ def oracle (toks : List String) (impl : String) : Option String :=
               else if impl.startsWith "rejected" then "fails duplicate reported by a shard other than shard_picker(tag)"
               else s!"fails the same encrypted report was submitted twice but the query was not rejected ({impl})")
       else pure (if impl == "accepted" then "holds" else s!"fails pairwise distinct reports were not accepted ({impl})")).getD "unknown"
+  | ["c11.big", count, i, j] => some <|
+      (if impl == "rejected:on-picker-shard" then "holds"
+       else s!"fails accepted-or-not-rejected: reports {i} and {j} of the {count} encrypted reports on one shard are byte-identical but the query did not fail with DuplicateBytes ({impl})")
   | _ => none
 
 end IpaVerif.Driver.C11
